@@ -103,6 +103,46 @@ func runC16(c *Ctx) {
 				c.addRT(tc, v, "json-roundtrip")
 			}
 		}
+		// the same bytes into a target that is shorter than the array but has the capacity for it,
+		// its spare capacity holding old values (out = out[:k] after an earlier use): what is
+		// decoded must not depend on them - nil entries in particular write nothing
+		if t == tJSONArr || t == reflect.TypeOf(JSONHolder{}) {
+			data, err := tc.P.Marshal(nil, v.Addr().Interface())
+			if err == nil {
+				fresh := reflect.New(t)
+				arrLen := func(x reflect.Value) int {
+					if t == tJSONArr {
+						return x.Len()
+					}
+					return x.FieldByName("A").Len()
+				}
+				// (an empty array is not written at all: the target then keeps what it has)
+				if tc.P.Unmarshal(data, fresh.Interface()) == nil && arrLen(fresh.Elem()) > 0 {
+					stale := make([]any, 12)
+					for k := range stale {
+						stale[k] = fmt.Sprintf("old%d", k)
+					}
+					reused := reflect.New(t)
+					k := c.rng.Intn(4)
+					if t == tJSONArr {
+						reused.Elem().Set(reflect.ValueOf(stale[:k]))
+					} else {
+						reused.Elem().FieldByName("A").Set(reflect.ValueOf(stale[:k]))
+					}
+					err2 := tc.P.Unmarshal(data, reused.Interface())
+					want, got := coqVal(fresh.Elem()), coqVal(reused.Elem())
+					if t != tJSONArr {
+						// the other fields of the holder merge with the (zero) prior: compare the array only
+						want, got = coqVal(fresh.Elem().FieldByName("A")), coqVal(reused.Elem().FieldByName("A"))
+					}
+					if err2 != nil || want != got {
+						c.native = append(c.native, NativeViolation{Case: fmt.Sprintf("json array into a truncated target with spare capacity: data=%x kept=%d", data, k), Class: "json-reused-target",
+							What: trunc(fmt.Sprintf("decoded %s where a fresh target gives %s (%v)", got, want, err2), 600)})
+					}
+					c.count("json_reused_targets")
+				}
+			}
+		}
 		// Descriptor walk of the same bytes renders JSON equal to the value
 		if (t == tJSONMap || t == tJSONArr) && !v.IsZero() && validNumbers(v.Interface()) {
 			data, err := tc.P.Marshal(nil, v.Addr().Interface())
